@@ -264,7 +264,7 @@ func wireSwitchExhaustive(c *core.Ctx, l *core.Ledger, rule, rel, fname string, 
 }
 
 func checkC02(c *core.Ctx, l *core.Ledger) {
-	l.Explanation = "Static clauses of C02 decided on protocol/binary and wire: (TYPECODE) the 11 wire type codes equal the Thrift table; (EXH) every dispatch over wire.Type handles all 11 codes and has a default; (WSEQ/RSEQ) the ordered sequence of primitive writes/reads on the success path of every StreamWriter/StreamReader method, extracted from SSA with symbolic payloads (width, byte order via the statically resolved encoding/binary method, header field bound), equals the frozen Thrift binary-protocol row; (PAIR) writer and reader rows agree; (VALUE-TAB, DISPATCH) wire.Value constructor/getter pairs and the per-type dispatch of Writer.WriteValue / reader.ReadValue compose to the same rows; (CONTAINER) struct/list/set/map framing sequences and lazy-list header def-use; (OWN) the underlying io.Writer is written only by the one write primitive; (ORDER) ForEach implementations iterate forward once. NOT decided: value-level round-trip equality, NaN bit patterns at run time, behaviour of unsafe string/byte aliasing, stdlib correctness."
+	l.Explanation = "Static clauses of C02 decided on protocol/binary and wire: (TYPECODE) the 11 wire type codes equal the Thrift table; (EXH) every dispatch over wire.Type handles all 11 codes and has a default; (WSEQ/RSEQ) the ordered sequence of primitive writes/reads on the success path of every StreamWriter/StreamReader method, extracted from SSA with symbolic payloads (width, byte order via the statically resolved encoding/binary method, header field bound), equals the frozen Thrift binary-protocol row; (PAIR) writer and reader rows agree; (VALUE-TAB, DISPATCH) wire.Value constructor/getter pairs and the per-type dispatch of Writer.WriteValue / reader.ReadValue compose to the same rows; (CONTAINER) struct/list/set/map framing sequences and lazy-list header def-use; (OWN) the underlying io.Writer is written only by the one write primitive; (ORDER) ForEach implementations iterate forward once. (W-FAIL-CAUSES) the serializers of protocol/binary (StreamWriter, Writer and everything they reach in the package) originate an error only when re-wording one they received or for a wire type outside the protocol — no condition on the content or shape of a valid value (nesting depth, string content) makes a serializer fail. (FAIL-CAUSES) both decoders originate errors only for the protocol's own reasons (negative length, unknown type code, non-canonical bool, envelope version/type, premature end of input); a cause present on one path only is reported. NOT decided: value-level round-trip equality, NaN bit patterns at run time, behaviour of unsafe string/byte aliasing, stdlib correctness."
 	l.RuleText = "one obligation per (rule, function/row); non-trivial = an SSA path enumeration, def-use chain or switch was actually examined"
 	l.Assumptions = []string{"encoding/binary.BigEndian.{Put,}UintN and math.Float64bits/frombits behave as documented", "io.ReadFull / io.CopyN read exactly the requested number of bytes or fail"}
 	m := newWireModel(c)
@@ -316,6 +316,8 @@ func checkC02(c *core.Ctx, l *core.Ledger) {
 	l.Floor("EXH", 7)
 	// decoded binaries and strings must not be views of memory the (pooled) reader keeps and reuses
 	checkFreshResults(c, l, "FRESH-RESULT", []string{"protocol/binary"})
+	checkWriteFailCauses(c, l)
+	checkFailCauses(c, l)
 
 	// 3/4. WSEQ / RSEQ against the frozen table
 	if m.wprim == nil {
